@@ -30,7 +30,15 @@ def errdisc(ctx, pfx, A, ev, sp, closer):
     for e in calls:
         direct = [d[0] for d in disc if d[1] is e.res]
         if 'try' not in direct:
-            bad.append('%s: result not propagated' % e.key.split('::')[-1])
+            # `?` written out: a match / if-let on the result whose error arm makes the function return an Err
+            ret_e = None
+            if isinstance(ev.ret_term, T.Tm) and 'match' in direct:
+                # the path on which every earlier fallible call succeeded and this one failed
+                m_ = {x: T.FALSE for x in T.subterms(ev.ret_term) if T.is_app(x, 'is:Err')}
+                m_[T.app('is:Err', e.res)] = T.TRUE
+                ret_e = T.subst(ev.ret_term, m_)
+            if not (ret_e is not None and T.is_app(ret_e, 'Err') and any(x is e.res for x in T.subterms(ret_e))):
+                bad.append('%s: result not propagated' % e.key.split('::')[-1])
         if any(h in ('unwrap',) for h in direct):
             bad.append('%s: unwrapped' % e.key.split('::')[-1])
     unw = [d for d in disc if d[0] == 'unwrap' and (d[3] or '').startswith('io::')]
